@@ -210,8 +210,8 @@ def angle_wrapping(env, cfg, ck):
         c = env.real('c', -1e3, 1e3)
         r = ck.call(b.angdiff, a, c)
         d = a - c
-    ck.true('range-low', r >= -env.pi)
-    ck.true('range-high', r <= env.pi)
+    ck.le('range-low', -env.pi, r)
+    ck.le('range-high', r, env.pi)
     if env.symbolic:
         # congruence: (d - r) / (2 pi) is the integer atom introduced by the modulo
         from pv import core as sc
